@@ -149,6 +149,10 @@ func CheckSchemaAt(seq []exact.Member, bits bool, place int) (class, detail stri
 	case 2:
 		b.WriteString("module m { namespace \"urn:m\"; prefix m; leaf l { type union { type string; type " + kind + " {")
 		tail = " } } } }"
+	case 5:
+		// the type that a deviation gives to a leaf: its member list is checked like any other
+		b.WriteString("module m { namespace \"urn:m\"; prefix m; leaf l { type string; } deviation /m:l { deviate replace { type " + kind + " {")
+		tail = " } } } }"
 	case 4:
 		// the second of two members of the same kind in one union: a type of its own, with its
 		// own faults, whatever the first one is like
@@ -279,7 +283,7 @@ func Enum(j *job.Job, s *job.Sink) {
 			}
 			if idx%int64(schemaEvery) == 0 && !hasEmpty {
 				s.Count("schema_cases", 1)
-				place := int(idx/int64(schemaEvery)) % 5
+				place := int(idx/int64(schemaEvery)) % 6
 				s.Count(fmt.Sprintf("schema_cases_place_%d", place), 1)
 				if c, d := CheckSchemaAt(seq, bits, place); c != "" {
 					s.Violation(idx, j.CaseID(idx), "C14.schema", c, d, map[string]any{"sequence": seqString(seq), "bits": bits, "place": place}, nil)
